@@ -423,12 +423,27 @@ func explainByCollision(wrong []*triple.Triple, uni []*triple.Triple) string {
 		}
 		kinds[found] = true
 	}
-	var ks []string
+	// several wrong triples may be explained by different collisions (and one triple by two at once): the class
+	// lists the atomic kinds once each, in a fixed order
+	atoms := map[string]bool{}
 	for k := range kinds {
-		ks = append(ks, k)
+		for _, a := range strings.Split(k, "+") {
+			atoms[a] = true
+		}
 	}
-	sort.Strings(ks)
-	return ":uuid-collision:" + strings.Join(ks, "+")
+	var ks []string
+	for _, a := range []string{"node-type-id-boundary", "predicate", "literal-encoding", "object-kinds"} {
+		if atoms[a] {
+			ks = append(ks, a)
+			delete(atoms, a)
+		}
+	}
+	var rest []string
+	for a := range atoms {
+		rest = append(rest, a)
+	}
+	sort.Strings(rest)
+	return ":uuid-collision:" + strings.Join(append(ks, rest...), "+")
 }
 
 func collisionKind(a, b *triple.Triple) string {
